@@ -78,4 +78,38 @@ pub(crate) mod kani_verif {
     h!(c02_lmots_kc_n32_w8, check_kc::<32, 1120, 1124, 3>(8), 150);
     // @h name=c02_lmots_kc_n16_w4 props=C02,C06,C12,C01 tier=thorough kind=proved cfg=default timeout=3600 funcs=lm_ots::verify::generate_public_key_candidate contract="same, n=16, w=4 (p=35)"
     h!(c02_lmots_kc_n16_w4, check_kc::<16, 600, 580, 0>(4), 80);
+
+    /// contract of the HashChainArray container that the Verus unit v4_lmots_verify assumes: a sequence with the capacity
+    /// of the selected Winternitz parameter (p(32, w) elements), push appends, as_slice returns what was pushed, in order
+    fn check_hca(w: u8) {
+        type HF = crate::hasher::sha256::Sha256_256;
+        let p = alg(w).construct_parameter::<HF>().unwrap();
+        let n_chains = p.get_num_winternitz_chains() as usize;
+        let mut a = HashChainArray::<HF>::new(&p);
+        assert!(a.as_slice().len() == 0, "new() is empty");
+        let k: usize = kani::any();
+        kani::assume(k < n_chains);
+        let mut saved = ArrayVec::<[u8; MAX_HASH_SIZE]>::default();
+        let mut i = 0;
+        while i < n_chains {
+            let v = ArrayVec::from_array_len(kani::any::<[u8; MAX_HASH_SIZE]>(), MAX_HASH_SIZE);
+            if i == k {
+                saved = v;
+            }
+            a.push(&v); // capacity p(32, w): a smaller array would panic here
+            i += 1;
+        }
+        let s = a.as_slice();
+        assert!(s.len() == n_chains, "p pushes give p elements");
+        assert!(s[k] == saved, "element k is the k-th pushed value");
+        kani::cover!(k + 1 == n_chains, "last element reachable");
+    }
+    // @h name=c02_hca_w8 props=C02,C06!,C01 tier=quick kind=proved cfg=default timeout=900 funcs=HashChainArray::new;HashChainArray::push;HashChainArray::as_slice contract="container contract assumed by Verus unit v4_lmots_verify: capacity p(32,w), push appends, as_slice returns the pushed sequence; W8 (34 elements), symbolic contents and index"
+    h!(c02_hca_w8, check_hca(8), 40);
+    // @h name=c02_hca_w4 props=C02,C06!,C01 tier=quick kind=proved cfg=default timeout=900 funcs=HashChainArray::new;HashChainArray::push;HashChainArray::as_slice contract="same, W4 (67 elements)"
+    h!(c02_hca_w4, check_hca(4), 72);
+    // @h name=c02_hca_w2 props=C02,C06,C01 tier=quick kind=proved cfg=default timeout=1200 funcs=HashChainArray::new;HashChainArray::push;HashChainArray::as_slice contract="same, W2 (133 elements)"
+    h!(c02_hca_w2, check_hca(2), 140);
+    // @h name=c02_hca_w1 props=C02,C06,C01 tier=quick kind=proved cfg=default timeout=1800 funcs=HashChainArray::new;HashChainArray::push;HashChainArray::as_slice contract="same, W1 (265 elements)"
+    h!(c02_hca_w1, check_hca(1), 270);
 }
